@@ -433,7 +433,7 @@ func (e *env) ingest(hist gen.History) bool {
 }
 
 func body(r *ev.Run) {
-	r.Rule("stores = seeded random histories (forks, stale branches, orphans, reorganisations) plus long chains (300 / 2100 quick, + 5000 thorough) with stale branches forking exactly at the locator heights and orphans. Random stores are questioned in up to 4 stages while they grow, earlier questions being asked again after later ingestion (incl. reorganisations). Per store: LatestHeaderLocator checked (starts at tip, only longest-chain hashes, strictly descending, single steps then doubling, ends at genesis; also after every extension of a growing chain for tips 0..40), and seeded getheaders queries: locators mixing longest/stale/orphan/unknown/genesis hashes in any order or the service's own locator, stops in {zero, ahead, behind, equal to start, genesis, stale/orphan, unknown}; both LocateHeadersGetHeaders and LocateHeaders compared header-by-header with the model answer. plus (d) wire level: the real legacy server or the experimental engine, synced from a scripted node, is asked getheaders over TCP by that node (locators of known/unknown hashes, stops ahead / at-or-below start / unknown, chains beyond 2000) and its headers replies are compared with the honest chain. plus (e) stores whose reorganisations are interrupted by a failing relabel statement: until the redelivery the locator and the answer from genesis must still be one hash-linked chain of stored headers, after it they are compared with the model again. plus (g) stores filled by the start-up import of a prepared file (every second one after a first start whose import was refused for a damaged row), then extended and given two successively heavier competitors at the tip height, questioned after each step and after a restart. plus (h) stores after a reorganisation over 501 heights (thorough: 499..2001). plus (f) stores configured for testnet / regtest / simnet (their own genesis blocks), incl. stop = that network's genesis. evaluations = getheaders queries; distinct = (locator class set, stop class) cells + locator lengths; non-trivial = all.")
+	r.Rule("stores = seeded random histories (forks, stale branches, orphans, reorganisations; every third one with block times, versions and nonces from all over their ranges - times are not monotonic along a chain) plus long chains (300 / 2100 quick, + 5000 thorough) with stale branches forking exactly at the locator heights and orphans. Random stores are questioned in up to 4 stages while they grow, earlier questions being asked again after later ingestion (incl. reorganisations). Per store: LatestHeaderLocator checked (starts at tip, only longest-chain hashes, strictly descending, single steps then doubling, ends at genesis; also after every extension of a growing chain for tips 0..40), and seeded getheaders queries: locators mixing longest/stale/orphan/unknown/genesis hashes in any order or the service's own locator, stops in {zero, ahead, behind, equal to start, genesis, stale/orphan, unknown}; both LocateHeadersGetHeaders and LocateHeaders compared header-by-header with the model answer. plus (d) wire level: the real legacy server or the experimental engine, synced from a scripted node, is asked getheaders over TCP by that node (locators of known/unknown hashes, stops ahead / at-or-below start / unknown, chains beyond 2000) and its headers replies are compared with the honest chain. plus (e) stores whose reorganisations are interrupted by a failing relabel statement: until the redelivery the locator and the answer from genesis must still be one hash-linked chain of stored headers, after it they are compared with the model again. plus (g) stores filled by the start-up import of a prepared file (every second one after a first start whose import was refused for a damaged row), then extended and given two successively heavier competitors at the tip height, questioned after each step and after a restart. plus (h) stores after a reorganisation over 501 heights (thorough: 499..2001). plus (f) stores configured for testnet / regtest / simnet (their own genesis blocks), incl. stop = that network's genesis. evaluations = getheaders queries; distinct = (locator class set, stop class) cells + locator lengths; non-trivial = all.")
 	r.Assume("the number of single steps before doubling is not fixed by the statement: any count is accepted, the 10-step reference is only recorded", "reference model transcribes the statement", "SQLite only")
 	r.Require("getheaders_capped_at_2000", 1)
 	r.Require("getheaders_stop_ahead", 50)
@@ -580,6 +580,9 @@ func body(r *ev.Run) {
 				PLate:    []float64{0, 0.08}[rng.Intn(2)],
 				PFork:    []float64{0.15, 0.4}[rng.Intn(2)],
 				Classes:  []string{"M", "MH", "MHL", "MHLZ"}[rng.Intn(4)],
+				// every third store: versions, nonces and TIMES from all over their ranges (block times are not monotonic
+				// along a chain)
+				FieldExtreme: i%3 == 1,
 			}
 			hist := gen.Random(rng, rig.Genesis(), o)
 			_ = st.Reset()
